@@ -507,3 +507,49 @@ Theorem C09_legacy_unicode_identify : forall H dsz uni c r x,
   end.
 Proof. exact legacy_unicode_identify. Qed.
 Print Assumptions C09_legacy_unicode_identify.
+
+(* ======================================================================================================
+   Proof-only round: end-to-end compositions. *)
+Require Import Verif.Proofs.C09_e2e Verif.Proofs.C09_forge.
+
+(* through the public entry points: a helper / policy CONSTRUCTED from keyword arguments (omitted ones equal to the documented
+   defaults), remember() through the policy (any object as user id), the cookie presented later from the same effective
+   address, unauthenticated_userid() through the policy, in ANY state of the presenting request (automatic reissue included):
+   exactly the remembered user id (type preserved; str(x) for an object outside the table) while now <= issue + timeout,
+   None afterwards, never a raise.  Composition of C09_construct_omitting_defaults, C09_generated_policy_*,
+   C09_identify_roundtrip and C09_issued_ticket_never_raises. *)
+Theorem C09_policy_end_to_end : forall H dsz uni pol omit c r r' a ma toks st st' hs k v st2,
+  (forall a x, length (H a x) = (dsz a * digest_mult)%nat) ->
+  (forall a x, exists c r, H a x = c :: r /\ c <> strip_ch) ->
+  mask_ok omit (default_eqs c) = true ->
+  (0 <= now r < 4294967296)%Z -> wf_uval (uarg_val a) ->
+  gen_policy_remember H (construct pol omit c) r st a ma toks = (st', Some hs) -> In k hs -> ck_value k = Some v ->
+  cookie r' = Some v -> eff_ip c r' = eff_ip c r ->
+  snd (gen_policy_userid H dsz uni (construct pol omit c) r' st2) =
+  match spec_issued_identity c (Z.to_N (now r)) (uarg_val a) (shown_tokens toks) (now2 r') with
+  | Some _ => USome (uarg_val a)
+  | None => UNone
+  end.
+Proof. exact policy_end_to_end. Qed.
+Print Assumptions C09_policy_end_to_end.
+
+(* "never a different user id or token set", without any cryptographic assumption: a cookie the helper ACCEPTS that carries the
+   digest field of a ticket the helper ISSUED is that ticket as far as identification can see (timestamp, typed user id, tokens,
+   user_data), or else it exhibits a COLLISION of the keyed double digest on two different field tuples *)
+Theorem C09_accepted_is_issued_or_collision : forall H dsz uni c r0 u0 ma toks hs k v r ck' ts u tk ud,
+  (forall a x, length (H a x) = (dsz a * digest_mult)%nat) ->
+  (forall a x, exists c r, H a x = c :: r /\ c <> strip_ch) ->
+  (forall a x, forallb valid_scalar (H a x) = true) ->
+  (0 <= now r0 < 4294967296)%Z -> wf_uval u0 ->
+  remember H c r0 u0 ma toks = Some hs -> In k hs -> ck_value k = Some v ->
+  cookie r = Some ck' -> forallb valid_scalar ck' = true -> eff_ip c r = eff_ip c r0 ->
+  identify_pre H dsz uni c r = ISome ts u tk ud ->
+  digest_field dsz uni (hashalg c) ck' = digest_field dsz uni (hashalg c) v ->
+  (ts = now r0 /\ u = u0 /\ tk = shown_tokens toks /\ ud = userid_typename ++ tag_of u0)
+  \/ exists ip enc uid tkf,
+       eff_ip c r = Some ip /\ encode_userid u0 = Some (tag_of u0, enc) /\
+       (ts, uid, tkf, ud) <> (now r0, enc, joined toks, userid_typename ++ tag_of u0) /\
+       calculate_digest H (hashalg c) ip ts (secret c) uid tkf ud
+       = calculate_digest H (hashalg c) ip (now r0) (secret c) enc (joined toks) (userid_typename ++ tag_of u0).
+Proof. exact accepted_is_issued_or_collision. Qed.
+Print Assumptions C09_accepted_is_issued_or_collision.
